@@ -10,6 +10,11 @@ def families(tier):
 
 
 def families0(tier):
+    q = tier == "quick"
+    return families1(tier) + D.nonascii_flag_family(SEED + 49, 12 if q else 48, maxlen=3 if q else 4, budget=2500 if q else 20000)
+
+
+def families1(tier):
     if tier == "quick":
         return D.conv_family(SEED + 50, 30, max_named=3, maxlen=3, budget=3000, extras=("dd", "unk", "unkshort")) + \
             D.cmd_family(SEED + 51, 15, maxlen=4, budget=3000, extras=("unk", "dd")) + D.pos_family(SEED + 52, 10, budget=3000)
